@@ -203,6 +203,7 @@ type FuncSpec struct {
 	NoBody    bool // extern / interface
 	Inline    bool // callers inline the body instead of using a contract
 	Witnesses []string
+	Uses      []string // lemmas whose (universally quantified) statements are assumed in this function's proofs
 }
 
 // SpecFunc is `spec name(params) type = expr` (a defined pure function) or,
